@@ -30,6 +30,7 @@ func propC06(c *Ctx) propInfo {
 	c.cursorOnSuccess()
 	c.bigIntChunks()
 	c.oneBitSigned()
+	c.signedRangeByBitLen()
 	c.fiftHex()
 	c.hexDigits()
 	c.log2Smear()
